@@ -357,3 +357,50 @@ func (a Access) String() string {
 }
 
 func rootNames(rs []string) string { sort.Strings(rs); return strings.Join(rs, ", ") }
+
+// knownOwners returns fn itself when the rule sets know it (or it is a
+// closure of a known function), else the nearest known callers of fn within
+// the given function set.
+func (p *Prog) knownOwners(fn *ssa.Function, within map[*ssa.Function]bool) []*ssa.Function {
+	top := fn
+	for top.Parent() != nil {
+		top = top.Parent()
+	}
+	if knownFuncs[p.Name(top)] {
+		return []*ssa.Function{fn}
+	}
+	seen := map[*ssa.Function]bool{}
+	var out []*ssa.Function
+	var up func(f *ssa.Function, depth int)
+	up = func(f *ssa.Function, depth int) {
+		if seen[f] || depth > 4 {
+			return
+		}
+		seen[f] = true
+		for g := range within {
+			calls := false
+			for _, c := range p.callEdges(g) {
+				if c == f {
+					calls = true
+				}
+			}
+			if !calls {
+				continue
+			}
+			t := g
+			for t.Parent() != nil {
+				t = t.Parent()
+			}
+			if knownFuncs[p.Name(t)] {
+				out = append(out, g)
+			} else {
+				up(g, depth+1)
+			}
+		}
+	}
+	up(fn, 0)
+	if len(out) == 0 {
+		return []*ssa.Function{fn}
+	}
+	return out
+}
